@@ -56,6 +56,30 @@ theorem visible_iff_provided {β : Type} (s : Spec) (ex : List (Name × β)) (v 
          (s.ids ≠ [] ∧ ∃ a, lookupLast s.ids n = some a ∧ v = s.prefixes ++ a.getD n)) := by
   simp only [mem_importsM, rename_eq_some, flatten_eq]
 
+/-- The same, on a module graph: module `k` sees `v` as the name `n` of module `t` iff one of its
+requires targets `t`, `t` provides `n`, and `n` survives that require's modifiers under the name `v`. -/
+theorem visible_iff_provided_graph (g : Graph) (k t : Nat) (v n : Name) :
+    (v, (t, n)) ∈ visible g k ↔
+      ∃ s ∈ (g.mod k).reqs, s.target = t ∧ n ∈ g.provNames t ∧
+        ((s.ids = [] ∧ v = s.prefixes ++ n) ∨
+         (s.ids ≠ [] ∧ ∃ a, lookupLast s.ids n = some a ∧ v = s.prefixes ++ a.getD n)) := by
+  unfold visible
+  simp only [List.mem_flatMap, List.mem_map]
+  constructor
+  · rintro ⟨r, ⟨s, hs, rfl⟩, ⟨v', n', u⟩, hmem, he⟩
+    simp only [Prod.mk.injEq] at he
+    obtain ⟨rfl, rfl, rfl⟩ := he
+    rw [mem_importsM, rename_eq_some] at hmem
+    obtain ⟨hp, hr⟩ := hmem
+    refine ⟨s, hs, by simp [flatten_eq], ?_, by simpa [flatten_eq] using hr⟩
+    obtain ⟨x, hx, hxe⟩ := List.mem_map.mp hp
+    simp only [Prod.mk.injEq] at hxe
+    rw [← hxe.1]; simpa [flatten_eq] using hx
+  · rintro ⟨s, hs, rfl, hn, hr⟩
+    refine ⟨s.flatten, ⟨s, hs, rfl⟩, (v, n, ()), ?_, by simp [flatten_eq]⟩
+    rw [mem_importsM, rename_eq_some]
+    refine ⟨List.mem_map.mpr ⟨n, by simpa [flatten_eq] using hn, rfl⟩, by simpa [flatten_eq] using hr⟩
+
 /-- The binding refers to the provided definition it was generated from (`(%proto-hash-get% … 'n)`). -/
 theorem import_refers_to_provided {β : Type} (r : Req) (ex : List (Name × β)) (v n : Name) (b : β) :
     (v, n, b) ∈ r.importsM ex → (n, b) ∈ ex := fun h => ((mem_importsM r ex v n b).mp h).1
